@@ -90,9 +90,13 @@ DecodeSelector(fr, raw) ==
 (* Filters *)
 BadSubstrings == <<Q("./"), Q(".."), Q("//"), Q(".\\"), Q("\\\\")>>       \* ... and NUL
 BadNames      == <<"dotslash", "dotdot", "dblslash", "dotbackslash", "dblbackslash">>
-IsSecure(s) == /\ \A i \in 1..5 : ~HasQ(s, BadSubstrings[i])
-               /\ ~HasChar(s, NUL)
-               /\ ~EndsWithQ(s, Q("/."))                      \* not selector.endswith("/.")  [fix 4th wave]
+\* the substring part of the filter: what containment rests on, and what is closed under the handlers' cuts
+SubSecure(s) == /\ \A i \in 1..5 : ~HasQ(s, BadSubstrings[i])
+                /\ ~HasChar(s, NUL)
+\* the whole filter: fix 860656c also refuses a trailing "/." (it names the directory itself: "/d/." used to list /d
+\* under a selector whose children are all refused).  Not needed for containment, and not closed under the virtual
+\* split ("/.?x" is accepted, its real part "/." is the root directory itself).
+IsSecure(s) == SubSecure(s) /\ ~EndsWithQ(s, Q("/."))
 
 \* the property's own list of "tries to climb out" (C01 statement) - deliberately a separate
 \* definition: the code's filter is IsSecure, the property's notion is Hostile
@@ -319,12 +323,12 @@ FrameResp(fr, o) == o.resp
 \* every selector a handler sees starts with "/"
 NormalFormC(d) == Len(d) > 0 /\ d[1] = "/"
 \* THEOREM (bounded): the filter plus literal concatenation implies containment under POSIX resolution
-ContainmentC(d) == (IsSecure(d) /\ NormalFormC(d)) => Contained(FsPath(d))
+ContainmentC(d) == (SubSecure(d) /\ NormalFormC(d)) => Contained(FsPath(d))
 \* the filter is closed under the cuts the handlers make: virtual split, ZIP walk-up, type rewriting
 PrefixClosedC(d) ==
-    IsSecure(d) => /\ IsSecure(VSplit(d).real)
-                   /\ LET hs == ZipHeads(d) IN \A i \in 1..Len(hs) : IsSecure(hs[i])
-                   /\ (Len(d) >= 3 => IsSecure(SubSeq(d, 3, Len(d))))
+    IsSecure(d) => /\ SubSecure(VSplit(d).real)
+                   /\ LET hs == ZipHeads(d) IN \A i \in 1..Len(hs) : SubSecure(hs[i])
+                   /\ (Len(d) >= 3 => SubSecure(SubSeq(d, 3, Len(d))))
 \* ... so that nothing a handler consumes depends on the world outside the root
 UntaintedC(o) == ~o.tainted
 \* the pre-filter stats are never consumed: an insecure selector reaches no handler but the URL page
